@@ -309,14 +309,17 @@ impl<T: Qcow2IoOps> Qcow2Dev<T> {
                 // change
                 self.flush_refcount().await?;
 
-                // flush mapping table in-place update
-                self.flush_table(&*l2_table, 0, l2_table.byte_size())
-                    .await?;
-                l2_handle.set_dirty(false);
-
                 // release l2 table, so that this new mapping can be flushed
                 // to disk
                 drop(l2_table);
+
+                // flush this l2 slice via the common slice flush path: if
+                // the cluster holding it is still marked as new, it has to
+                // be zeroed and unmarked first, otherwise the slice would
+                // later be rebuilt from zeros (or wiped by the delayed
+                // zeroing) although its mapping is on disk
+                self.flush_cache_entries(vec![(split.l2_slice_key(info), l2_handle.clone())])
+                    .await?;
 
                 if compressed {
                     // free clusters in original compressed mapping
